@@ -171,13 +171,16 @@ def oracle(c, o):
     tails = tails_big if c.get("big") else globals()["tails"]
     if not want_low and L != 0.0: return {"why": f"lower limit {L} should be 0", "cls": "binom_conf_interval:trivial-lower"}
     if not want_upp and U != 1.0: return {"why": f"upper limit {U} should be 1", "cls": "binom_conf_interval:trivial-upper"}
+    # the function solves cdf(x-1; q) = cl with cl a binary64 number next to 1 (spacing 1.1e-16) and the cdf evaluated in binary64:
+    # the tail level it can realise is a up to a few 1e-16 ABSOLUTE, which matters only at levels of 1e-6 and below
+    eps = Fraction(1, 10**15)
     if want_low:
         p1, p2 = brackets(L)
-        if not ((p1 == 0 or tails(n, x, p1)[0] <= a) and (p2 == 1 or tails(n, x, p2)[0] >= a)):
+        if not ((p1 == 0 or tails(n, x, p1)[0] <= a + eps) and (p2 == 1 or tails(n, x, p2)[0] >= a - eps)):
             return {"why": f"lower limit {L}: P_p(X>={x}) = {float(tails(n, x, Fraction(L))[0])} is not the tail level {float(a)} (n={n}, cl={c['cl']}, {c['alt']}, p={c['p']})", "cls": "binom_conf_interval:lower-limit"}
     if want_upp:
         q1, q2 = brackets(U)
-        if not ((q2 == 1 or tails(n, x, q2)[1] <= a) and (q1 == 0 or tails(n, x, q1)[1] >= a)):
+        if not ((q2 == 1 or tails(n, x, q2)[1] <= a + eps) and (q1 == 0 or tails(n, x, q1)[1] >= a - eps)):
             return {"why": f"upper limit {U}: P_p(X<={x}) = {float(tails(n, x, Fraction(U))[1])} is not the tail level {float(a)} (n={n}, cl={c['cl']}, {c['alt']}, p={c['p']})", "cls": "binom_conf_interval:upper-limit"}
     if Fraction(c["cl"]) >= Fraction(1, 2) and c["alt"] == "two-sided" and not (L - 1e-9 <= x / n <= U + 1e-9):
         return {"why": f"x/n={x / n} outside [{L},{U}]", "cls": "binom_conf_interval:mle-outside"}
